@@ -12,6 +12,7 @@ ghost('peer_rx', 'bytes', 'bytes the peer has actually received (bulk_write retu
 ghost('short', 'bool', 'some bulk_write so far accepted fewer bytes than it was given')
 ghost('held_transport', 'bool', 'the transport lock is held by this thread of control')
 ghost('held_store', 'bool', 'the store lock is held by this thread of control')
+ghost('broken', 'bool', 'a read of the device stream failed part-way in this session (transport error, timeout, unparsable packet): the cursor may sit inside a packet')
 ghost('held_local_id', 'bool', 'the local-id lock is held by this thread of control')
 ghost('di', 'intmap', 'per stream (local id): number of packets IOManager.read has delivered to its reader')
 ghost('lost', 'intmap', 'per stream: number of data-bearing (WRTE) packets consumed and discarded by IOManager.read')
